@@ -44,6 +44,9 @@ Inductive stmt :=
   (* interfaces (C09): x = &S_j{} converted to interface I_k;  [x =] xi.M_m(args) on an interface value, which
      dereferences xi at source position d *)
   | SConv (x : var) (k j : nat)
+  (* x = y where y has interface type I_k2 and x interface type I_k (the methods of I_k are the first methods of
+     I_k2, with the same signatures): an interface-to-interface conversion *)
+  | SConvI (x y : var) (k k2 : nat)
   | SCallI (cs : nat) (d : dsite) (x : option var) (xi : var) (k m : nat) (args : list atom_e)
   (* the (value, error) convention (C08): return a, e  and  x, xe = f(args); errors are nil or not, like pointers
      (e: nil, a freshly made error, or an error variable) *)
@@ -57,7 +60,8 @@ Record func := { f_nparams : nat; f_body : stmt }.
    variable k is declared with an allocation (true) or left nil (false);
    p_impls j lists, per method index, the function implementing it for the concrete type S_j (its parameter 0 is
    the receiver) *)
-Record program := { p_funcs : list func; p_ginit : list bool; p_impls : list (list fname) }.
+(* p_isig k lists, per method index, the number of parameters of the methods of interface I_k *)
+Record program := { p_funcs : list func; p_ginit : list bool; p_impls : list (list fname); p_isig : list (list nat) }.
 
 (* nil, or a valid pointer; a pointer stored in an interface value remembers the interface and the concrete type *)
 Inductive value := VNil | VPtr (dyn : option (nat * nat)).
@@ -180,6 +184,12 @@ Section Exec.
               end
           end
       | SConv x k j => ONormal (sset s x (VPtr (Some (k, j)))) oracle
+      | SConvI x y k k2 =>
+          match sget s y with
+          | VNil => ONormal (sset s x VNil) oracle
+          | VPtr None => OOutOfFuel          (* ill-typed: not an interface value *)
+          | VPtr (Some (k', j)) => if Nat.eqb k2 k' then ONormal (sset s x (VPtr (Some (k, j)))) oracle else OOutOfFuel
+          end
       | SCallI _ d x xi k m args =>
           match sget s xi with
           | VNil => OPanic d
